@@ -61,7 +61,7 @@ def derive_suite(ctx):
         progs = []
         for i, b in enumerate(bases):
             for t in range(nthreads):
-                progs.append(b + [ops[(t // 2 + i) % len(ops)]] if t % 2 == 0 else b)
+                progs.append(b + [ops[(t // 4 + i) % len(ops)]] if t % 2 == 0 else b)
         want[k] = core.run_sharded("model", ctx.overlay, [core.call_line("observe@" + k, 2, p) for p in progs])
     res = core.run_all(ctx, [core.call_line("threads_derive", bases, ops, 2, nthreads, rounds, ctx.seed)], kinds=("py", "c"))
     name = "C20-derive-from-shared"
@@ -79,11 +79,34 @@ def derive_suite(ctx):
                     if len(ctx.violations) < 20:
                         ctx.violation(kind="predicate-failure", suite=name, backend=k,
                                       predicate="result of a modifier on (or a read of) a shared fresh URL == sequential result of the extracted model",
-                                      thread=t, base=bases[i], op=(ops[(t // 2 + i) % len(ops)] if t % 2 == 0 else "read all accessors"),
+                                      thread=t, base=bases[i], op=(ops[(t // 4 + i) % len(ops)] if t % 2 == 0 else "read all accessors"),
                                       impl=core.shorten(v, 1200), model=core.shorten(core.safe_dec(want[k][i * nthreads + t]), 1200))
         ctx.suites[name]["predicate_failures"] = ctx.suites[name].get("predicate_failures", 0) + bad
         ctx.suites[name]["predicate"] = "thread result == model"
 
+
+    # the same modifier applied to the same object by several threads at once, many times over: whatever they get back
+    # (possibly one object shared through the construction caches) reads like the sequential result, and nothing leaks
+    hot_bases = [[["push", ["url", "http://u:p@example.com:8080/a/b.txt?x=1&a=2#f"]]], [["push", ["url", "http://example.com/p"]]],
+                 [["push", ["url", "//h/x"]]], [["push", ["enc", "http://example.com.:0080/q"]]]]
+    hot = core.run_all(ctx, [core.call_line("threads_shared_result", hot_bases[: (2 if ctx.quick else 4)], ops, 80 if ctx.quick else 1500, 4, ctx.seed)], kinds=("py", "c"))
+    from proto import Exn
+    n = 0
+    for k, o in hot.items():
+        rows = dec(o[0])
+        if not isinstance(rows, list):
+            ctx.violation(kind="predicate-failure", suite="C20-shared-result", backend=k, predicate="run completed", impl=str(rows)[:300])
+            continue
+        for idx, row in enumerate(rows):
+            ref, res = row
+            n += len(res)
+            for t, v in enumerate(res):
+                if v != ref and len(ctx.violations) < 20:
+                    ctx.violation(kind="predicate-failure", suite="C20-shared-result", backend=k,
+                                  predicate="a modifier applied concurrently to one object gives every thread the sequential result",
+                                  base=hot_bases[idx // len(ops)], op=ops[idx % len(ops)], thread=t,
+                                  impl=core.shorten(v, 600), sequential=core.shorten(ref, 600))
+    ctx.count("C20-shared-result", n, {"shared-result"}, hist={"bases": len(hot_bases), "ops": len(ops)})
 
 def gil_scan(ctx):
     import os
